@@ -128,6 +128,11 @@ def doHist (form : String) (steps : String) : String :=
 def handle (toks : List String) : Option String :=
   match toks with
   | ["c19scripts"] => some doScripts
+  | ["c19line", _, _] =>
+    -- a script-implemented command called from the body of the CALLER's for-in loop whose `for`
+    -- line has a given index: the loop runs like its unrolled form (model-free relation on the
+    -- real run; the model's answer is the relation's expected verdict)
+    some "same-as-unrolled"
   | ["c19wrap", a, args, vars, ctx, sets, dels, nalloc, rel, res] =>
     some <| (do
       let alias ← decStr a
